@@ -39,6 +39,9 @@ class Ctx(object):
         self.engine_unsound = False
         self._known = self._load_known()
         self._printed = set()
+        self._fam_reports = {}
+        self._fam_skipped = {}
+        self.max_reports_per_family = 8
 
     # ---------------------------------------------------------------- known
     def _load_known(self):
@@ -140,8 +143,14 @@ class Ctx(object):
                            function=None, solver_output='', text=''):
         """Replay a candidate counterexample on the real code in a clean interpreter.
         Only a replay that fails there is reported.  Returns True if reported/known."""
+        fam = obligation.split('[')[0]
+        cnt = self._fam_reports.get(fam, 0)
+        if cnt >= self.max_reports_per_family:
+            self._fam_skipped[fam] = self._fam_skipped.get(fam, 0) + 1
+            return False
         res = self.replay_in_subprocess(replayer, replay_args)
         if res.get('failed'):
+            self._fam_reports[fam] = cnt + 1
             ci = canonical_input if canonical_input is not None else replay_args
             self.violation(obligation, ci, res.get('observed'), res.get('expected'),
                            replayer=replayer, replay_args=replay_args, function=function,
@@ -179,6 +188,7 @@ class Ctx(object):
                                 + sum(b['solver_s'] for b in self.bounded), 3),
             known_findings_hit=self.known_hits,
             notes=self.notes[:40],
+            candidates_not_replayed_after_cap=self._fam_skipped,
             engine_flagged_unsound=self.engine_unsound,
             exhaustive=bool(self.bounded) and all(b['exhaustive'] for b in self.bounded),
         )
